@@ -127,6 +127,10 @@ B("C08", "break-on-absent", "hvsr_traditional.py", "                self.valid_p
 B("C08", "mean-curve-peak-full-range", "hvsr_traditional.py", "                                                      search_range_in_hz=self._search_range_in_hz,\n                                                      find_peaks_kwargs=self._find_peaks_kwargs)\n\n        if f_peak is None or a_peak is None:\n            msg = \"Mean curve does not have a peak in the specified range.\"\n            raise ValueError(msg)\n\n        return (f_peak, a_peak)\n\n    def nth_std_fn_frequency",
   "                                                      find_peaks_kwargs=self._find_peaks_kwargs)\n\n        if f_peak is None or a_peak is None:\n            msg = \"Mean curve does not have a peak in the specified range.\"\n            raise ValueError(msg)\n\n        return (f_peak, a_peak)\n\n    def nth_std_fn_frequency")
 
+B("C08", "upper-bound-exclusive", "hvsr_curve.py", "f_high_idx = np.argmin(np.abs(frequency - f_high)) + 1", "f_high_idx = np.argmin(np.abs(frequency - f_high))",
+  "the defect repaired by da22104: the sample nearest to the upper limit is dropped")
+N("C08", "upper-bound-named", "hvsr_curve.py", "f_high_idx = np.argmin(np.abs(frequency - f_high)) + 1", "nearest = np.argmin(np.abs(frequency - f_high))\n            f_high_idx = nearest + 1")
+
 # ----------------------------------------------------------------------------- C09
 B("C09", "record-window-in-place", "processing.py", "            ns = TimeSeries.from_timeseries(record.ns)\n            ns.window(*settings.window_type_and_width)", "            ns = record.ns\n            ns.window(*settings.window_type_and_width)")
 B("C09", "asarray-in-timeseries", "timeseries.py", "self.amplitude = np.array(amplitude, dtype=np.double)", "self.amplitude = np.asarray(amplitude, dtype=np.double)")
